@@ -1,14 +1,595 @@
 import Model.Util
 /-
-  Model/Coherence.lean — (stub) executable model for C02; see DESIGN.md.  Core Lean only.
+  Model/Coherence.lean — wiring model behind C02 ("after any mutation an agent is coherent").
+
+  An agent is described by what `agent.registry` says (read from the live object by the harness):
+  network attributes with their role (evaluation network / policy flag / shared network and the
+  evaluation network it shadows), optimizers (registered network attributes, learning-rate
+  attribute, single optimizer or list of optimizers), learning-rate attributes, the mutation hook.
+
+  Identity is modelled, numerics are not: a module owns *parameter cells* (the `nn.Parameter`
+  objects `parameters()` lists, encoder first, then head), an optimizer owns one group per module
+  it steps (the cells it was built from and the learning rate it was built with).  Architectures
+  and weights are opaque tags: equal tags ⇔ the code made one a copy of the other.
+
+  The pipeline follows `agilerl/hpo/mutation.py`:
+
+  * `Mutations.mutation`  = per agent: the drawn kind (`kindStep`), then `finish`
+    (re-create every shared network from its evaluation network's `init_dict` + `load_state_dict`,
+    run the mutation hook).
+  * architecture          = clone every evaluation network, apply the policy's *applied* method to
+                            the others, run the hook, rebuild every optimizer (`reinit_opt`).
+  * parameters            = noise written in place into the policy's weights, rebuild every optimizer.
+  * activation            = nothing for the policy-gradient / actor-critic algorithms (`actExempt`),
+                            otherwise every evaluation network is rebuilt, then every optimizer.
+  * rl_hp                 = value written to the attribute; if it is a learning rate, the
+                            optimizers using it are rebuilt (`firstOnly = true` is the unrepaired
+                            code, which rebuilt only the first one).
+  * hooks                 = `share_encoder_parameters` (DDPG/TD3/PPO: the encoders of the listed
+                            networks become detached copies of the policy's encoder — no longer
+                            parameters), DQN's `init_hook` (the whole target becomes a detached copy).
+  * `clone` (tournament selection) and `learn` complete the generation loop.
+
+  Fresh cells and tags are *inputs* of every operation (`Fresh`, `stamp`): the theorems hold for
+  every choice of them; the driver allocates them from a counter.
 -/
 namespace Coherence
 open Util
 
+/-- opaque identity of an architecture / of a block of weights: (stamp, network, module) -/
+abbrev Tag := Nat × Nat × Nat
+
+/-- which tensors of a module are detached copies (not parameters any more) -/
+inductive Det
+  | none | enc | all
+deriving DecidableEq, Repr
+
+structure Mod where
+  arch    : Tag
+  wEnc    : Tag
+  wHead   : Tag
+  enc     : List Nat
+  head    : List Nat
+  det     : Det
+  lastMut : Option String
+deriving DecidableEq, Repr
+
+/-- `list(module.parameters())` -/
+def Mod.params (m : Mod) : List Nat :=
+  match m.det with
+  | .none => m.enc ++ m.head
+  | .enc => m.head
+  | .all => []
+
+inductive Role
+  | eval (policy : Bool)
+  | shared (src : Nat)
+deriving DecidableEq, Repr
+
+def Role.isEval : Role → Bool
+  | .eval _ => true
+  | .shared _ => false
+
+structure NetAttr where
+  role : Role
+  mods : List Mod
+deriving DecidableEq, Repr
+
+structure Group where
+  cells : List Nat
+  lr    : Rat
+deriving DecidableEq, Repr
+
+structure Opt where
+  nets   : List Nat
+  lr     : Nat
+  multi  : Bool
+  groups : List Group
+deriving DecidableEq, Repr
+
+/-- the mutation hook: `src` is the network whose tensors are copied (the policy) -/
+inductive Hook
+  | none
+  | shareEnc (src : Nat) (targets : List Nat)
+  | detachAll (src : Nat) (targets : List Nat)
+deriving DecidableEq, Repr
+
+def Hook.targets : Hook → List Nat
+  | .none => []
+  | .shareEnc _ ts => ts
+  | .detachAll _ ts => ts
+
+def Hook.src : Hook → Nat
+  | .none => 0
+  | .shareEnc s _ => s
+  | .detachAll s _ => s
+
+/-- the detachment the hook leaves on network `k` -/
+def Hook.det (h : Hook) (k : Nat) : Det :=
+  match h with
+  | .none => .none
+  | .shareEnc _ ts => if k ∈ ts then .enc else .none
+  | .detachAll _ ts => if k ∈ ts then .all else .none
+
+structure Agent where
+  index     : Nat
+  nets      : List NetAttr
+  opts      : List Opt
+  lrs       : List Rat
+  hook      : Hook
+  actExempt : Bool
+  label     : String
+deriving DecidableEq, Repr
+
+/-- fresh cells per network, per module: (encoder cells, head cells) -/
+abbrev Fresh := List (List (List Nat × List Nat))
+
+def Fresh.at (f : Fresh) (k j : Nat) : List Nat × List Nat := (f.getD k []).getD j ([], [])
+
+/-! ### what the registry-driven code computes -/
+
+/-- parameter lists of the modules of network attribute `k` -/
+def paramsOf (nets : List NetAttr) (k : Nat) : List (List Nat) :=
+  match nets[k]? with
+  | some n => n.mods.map Mod.params
+  | none => []
+
+/-- the groups `OptimizerWrapper(networks=…)` is built from: one per module, in order -/
+def expected (nets : List NetAttr) (o : Opt) : List (List Nat) := o.nets.flatMap (paramsOf nets)
+
+/-- `reinit_opt` for one optimizer: new wrapper over the current parameters, `lr = getattr(agent, lr_name)` -/
+def rebuildOpt (nets : List NetAttr) (lrs : List Rat) (o : Opt) : Opt :=
+  { o with groups := (expected nets o).map fun cs => { cells := cs, lr := lrs.getD o.lr 0 } }
+
+def rebuildAll (a : Agent) : Agent := { a with opts := a.opts.map (rebuildOpt a.nets a.lrs) }
+
+def modsAt (nets : List NetAttr) (k : Nat) : List Mod :=
+  match nets[k]? with
+  | some n => n.mods
+  | none => []
+
+def policyMods (nets : List NetAttr) : List Mod :=
+  match nets.find? (fun n => n.role == Role.eval true) with
+  | some n => n.mods
+  | none => []
+
+/-- what the hook does to module `j` of a target, `p` = the modules of the hook's source network.
+    `share_encoder_parameters`: the encoder becomes a detached copy of the source's encoder;
+    DQN `init_hook`: the whole module becomes a detached copy of the source — the code swallows
+    the `KeyError` raised when the two architectures differ and then leaves the values alone. -/
+def hookMod (h : Hook) (p : List Mod) (j : Nat) (m : Mod) : Mod :=
+  match h with
+  | .none => m
+  | .shareEnc _ _ => { m with det := .enc, wEnc := match p[j]? with | some q => q.wEnc | none => (0, 0, 0) }
+  | .detachAll _ _ =>
+    match p[j]? with
+    | some q => if q.arch = m.arch then { m with det := .all, wEnc := q.wEnc, wHead := q.wHead }
+                else { m with det := .all }
+    | none => { m with det := .all }
+
+/-- `agent.mutation_hook()` -/
+def applyHook (h : Hook) (nets : List NetAttr) : List NetAttr :=
+  nets.mapIdx fun k n =>
+    if k ∈ h.targets then { n with mods := n.mods.mapIdx (hookMod h (modsAt nets h.src)) } else n
+
+/-- `module_cls(**init_dict)` + `load_state_dict(src.state_dict(), strict=False)` (also
+    `EvolvableModule.clone`): same architecture, fresh parameters holding the source's *parameter*
+    values; detached tensors are not in the state dict, so those blocks stay randomly initialised -/
+def copyMod (rnd : Tag) (fr : List Nat × List Nat) (m : Mod) : Mod :=
+  { arch := m.arch,
+    wEnc := if m.det = .none then m.wEnc else rnd,
+    wHead := if m.det = .all then rnd else m.wHead,
+    enc := fr.1, head := fr.2, det := .none, lastMut := none }
+
+/-- the tail of `Mutations.mutation`: shared networks re-created from their evaluation network, hook -/
+def finish (fresh : Fresh) (stamp : Nat) (a : Agent) : Agent :=
+  let nets1 := a.nets.mapIdx fun k n =>
+    match n.role with
+    | .shared src =>
+      match a.nets[src]? with
+      | some e => { n with mods := e.mods.mapIdx fun j m => copyMod (stamp, k, j) (fresh.at k j) m }
+      | none => n
+    | .eval _ => n
+  { a with nets := applyHook a.hook nets1 }
+
+/-- clone of an evaluation module followed by the applied architecture method (`none`: untouched) -/
+def cloneMutate (stamp k : Nat) (applied : List (Option String)) (fr : List (List Nat × List Nat))
+    (j : Nat) (m : Mod) : Mod :=
+  let ap := applied.getD j none
+  let c := copyMod (stamp, k, j) (fr.getD j ([], [])) m
+  if ap.isSome then { c with arch := (stamp, k, j), wEnc := (stamp, k, j), wHead := (stamp, k, j), lastMut := ap }
+  else { c with lastMut := none }
+
+def mapEval (f : Nat → NetAttr → NetAttr) (nets : List NetAttr) : List NetAttr :=
+  nets.mapIdx fun k n => if n.role.isEval then f k n else n
+
+def archStep (applied : List (Option String)) (fresh : Fresh) (stamp : Nat) (a : Agent) : Agent :=
+  let nets1 := mapEval (fun k n => { n with mods := n.mods.mapIdx (cloneMutate stamp k applied (fresh.getD k [])) }) a.nets
+  let nets2 := applyHook a.hook nets1
+  rebuildAll { a with nets := nets2, label := (applied.headD none).getD "None" }
+
+def paramStep (stamp : Nat) (a : Agent) : Agent :=
+  let nets1 := a.nets.mapIdx fun k n =>
+    if n.role = Role.eval true then
+      { n with mods := n.mods.mapIdx fun j m => { m with wEnc := (stamp, k, j), wHead := (stamp, k, j) } }
+    else n
+  rebuildAll { a with nets := nets1, label := "param" }
+
+def actStep (fresh : Fresh) (stamp : Nat) (a : Agent) : Agent :=
+  if a.actExempt then { a with label := "None" } else
+  let nets1 := mapEval (fun k n => { n with mods := n.mods.mapIdx fun j m =>
+      { copyMod (stamp, k, j) (fresh.at k j) m with arch := (stamp, k, j), wEnc := m.wEnc, wHead := m.wHead } }) a.nets
+  rebuildAll { a with nets := nets1, label := "act" }
+
+/-- `rl_hyperparam_mutation`; `lr = some (i, v)` when the sampled attribute is learning rate `i` -/
+def hpStep (firstOnly : Bool) (name : String) (lr : Option (Nat × Rat)) (a : Agent) : Agent :=
+  match lr with
+  | none => { a with label := name }
+  | some (i, v) =>
+    let lrs := a.lrs.set i v
+    let opts :=
+      if firstOnly then
+        match a.opts.findIdx? (fun o => o.lr == i) with
+        | some p => a.opts.mapIdx fun q o => if q = p then rebuildOpt a.nets lrs o else o
+        | none => a.opts
+      else a.opts.map fun o => if o.lr = i then rebuildOpt a.nets lrs o else o
+    { a with lrs := lrs, opts := opts, label := name }
+
+inductive Kind
+  | none
+  | arch (applied : List (Option String))
+  | param
+  | act
+  | hp (name : String) (lr : Option (Nat × Rat))
+deriving DecidableEq, Repr
+
+structure Choice where
+  kind  : Kind := .none
+  fresh : Fresh := []
+  stamp : Nat := 0
+deriving DecidableEq, Repr
+
+def kindStep (firstOnly : Bool) (c : Choice) (a : Agent) : Agent :=
+  match c.kind with
+  | .none => { a with label := "None" }
+  | .arch applied => archStep applied c.fresh c.stamp a
+  | .param => paramStep c.stamp a
+  | .act => actStep c.fresh c.stamp a
+  | .hp name lr => hpStep firstOnly name lr a
+
+/-- one agent through `Mutations.mutation` -/
+def mutate1 (firstOnly : Bool) (c : Choice) (a : Agent) : Agent :=
+  finish c.fresh (c.stamp + 1) (kindStep firstOnly c a)
+
+/-- the label `Mutations.mutation` is expected to leave in `agent.mut` for a drawn kind -/
+def labelOf (a : Agent) : Kind → String
+  | .none => "None"
+  | .arch applied => (applied.headD none).getD "None"
+  | .param => "param"
+  | .act => if a.actExempt then "None" else "act"
+  | .hp name _ => name
+
+/-- `EvolvableAlgorithm.clone(index)`: every network cloned, hook, optimizers rebuilt over the
+    clones and loaded with the parent's optimizer state (group learning rates included) -/
+def cloneAgent (index : Nat) (fresh : Fresh) (stamp : Nat) (a : Agent) : Agent :=
+  let nets1 := a.nets.mapIdx fun k n => { n with mods := n.mods.mapIdx fun j m => copyMod (stamp, k, j) (fresh.at k j) m }
+  let nets2 := applyHook a.hook nets1
+  let opts := a.opts.map fun o =>
+    { o with groups := (expected nets2 o).mapIdx fun i cs =>
+        { cells := cs, lr := match o.groups[i]? with | some g => g.lr | none => a.lrs.getD o.lr 0 } }
+  { a with index := index, nets := nets2, opts := opts }
+
+/-- what a constructor does with freshly built networks: hook, optimizers over the result,
+    shared networks loaded from their evaluation networks -/
+def construct (fresh : Fresh) (stamp : Nat) (a0 : Agent) : Agent :=
+  finish fresh stamp (rebuildAll { a0 with nets := applyHook a0.hook a0.nets })
+
+/-- the parameters an optimizer step writes: exactly the cells held by the optimizers -/
+def learnWrites (a : Agent) : List Nat := a.opts.flatMap fun o => o.groups.flatMap (·.cells)
+
+def Mod.touched (w : List Nat) (m : Mod) : Bool := m.params.any (fun c => w.contains c)
+
+/-- `agent.learn(batch)`: values of the written parameters (and of soft-updated shared networks)
+    change; no object is replaced -/
+def learn1 (stamp : Nat) (a : Agent) : Agent :=
+  let w := learnWrites a
+  { a with nets := a.nets.mapIdx fun k n =>
+      { n with mods := n.mods.mapIdx fun j m =>
+          if m.touched w || !n.role.isEval then { m with wEnc := (stamp, k, j), wHead := (stamp, k, j) } else m } }
+
+/-! ### populations and generations -/
+
+structure CloneSpec where
+  parent : Nat
+  index  : Nat
+  fresh  : Fresh := []
+  stamp  : Nat := 0
+deriving DecidableEq, Repr
+
+inductive Op
+  | select (cs : List CloneSpec)
+  | mutate (choices : List Choice)
+  | learn (i : Nat) (stamp : Nat)
+deriving Repr
+
+abbrev Pop := List Agent
+
+def selectPop (cs : List CloneSpec) (pop : Pop) : Pop :=
+  cs.filterMap fun c => (pop[c.parent]?).map (cloneAgent c.index c.fresh c.stamp)
+
+/-- `Mutations.mutation(population)`: one drawn choice per agent, in order -/
+def mutatePop (firstOnly : Bool) (choices : List Choice) (pop : Pop) : Pop :=
+  pop.mapIdx fun i a => mutate1 firstOnly (choices.getD i {}) a
+
+def learnPop (i stamp : Nat) (pop : Pop) : Pop :=
+  pop.mapIdx fun j a => if j = i then learn1 stamp a else a
+
+def Op.apply (firstOnly : Bool) (pop : Pop) : Op → Pop
+  | .select cs => selectPop cs pop
+  | .mutate chs => mutatePop firstOnly chs pop
+  | .learn i s => learnPop i s pop
+
+def run (firstOnly : Bool) (pop : Pop) (ops : List Op) : Pop := ops.foldl (Op.apply firstOnly) pop
+
+/-! ### coherence (decidable, also printed by the driver) -/
+
+def optCoherent (nets : List NetAttr) (lrs : List Rat) (o : Opt) : Bool :=
+  (o.groups.map (·.cells) == expected nets o) && o.groups.all (fun g => g.lr == lrs.getD o.lr 0)
+
+def sharedArchOK (nets : List NetAttr) (n : NetAttr) : Bool :=
+  match n.role with
+  | .shared src =>
+    match nets[src]? with
+    | some e => n.mods.map (·.arch) == e.mods.map (·.arch)
+    | none => false
+  | .eval _ => true
+
+def sharedWeightsOK (nets : List NetAttr) (n : NetAttr) : Bool :=
+  match n.role with
+  | .shared src =>
+    match nets[src]? with
+    | some e => n.mods.map (fun m => (m.wEnc, m.wHead)) == e.mods.map (fun m => (m.wEnc, m.wHead))
+    | none => false
+  | .eval _ => true
+
+/-- every non-policy evaluation module carries the applied method of the policy's module -/
+def archFollowed (nets : List NetAttr) : Bool :=
+  let p := policyMods nets
+  nets.all fun n => !n.role.isEval ||
+    (List.range n.mods.length).all fun j =>
+      (n.mods[j]?.map (·.lastMut)) == (p[j]?.map (·.lastMut)) || (p[j]?).isNone
+
+def coherent (a : Agent) : Bool :=
+  a.opts.all (optCoherent a.nets a.lrs) && a.nets.all (sharedArchOK a.nets)
+
+/-! ### line protocol -/
+
 structure IOState where
-  dummy : Nat := 0
+  pop       : List Agent := []
+  next      : Nat := 0          -- cell allocator
+  stamp     : Nat := 1
+  firstOnly : Bool := false
+
+def range' (b n : Nat) : List Nat := (List.range n).map (b + ·)
+
+/-- allocate cells for a table of (enc, head) sizes -/
+def allocMods (next : Nat) : List (Nat × Nat) → List (List Nat × List Nat) × Nat
+  | [] => ([], next)
+  | (e, h) :: r =>
+    let rest := allocMods (next + e + h) r
+    ((range' next e, range' (next + e) h) :: rest.1, rest.2)
+
+def allocFresh (next : Nat) : List (List (Nat × Nat)) → Fresh × Nat
+  | [] => ([], next)
+  | ms :: r =>
+    let a := allocMods next ms
+    let rest := allocFresh a.2 r
+    (a.1 :: rest.1, rest.2)
+
+def sizesOf (a : Agent) : List (List (Nat × Nat)) := a.nets.map fun n => n.mods.map fun m => (m.enc.length, m.head.length)
+
+def splitOnTok (sep : String) (ws : List String) : List (List String) :=
+  let r := ws.foldl (fun (acc : List (List String) × List String) w =>
+    if w = sep then (acc.1 ++ [acc.2], []) else (acc.1, acc.2 ++ [w])) ([], [])
+  r.1 ++ [r.2]
+
+def parseNatList? (sep : String) (s : String) : Option (List Nat) :=
+  if s = "-" then some [] else allSome ((s.splitOn sep).map parseNat?)
+
+/-- `e,h+e,h+…` -/
+def parseSizes? (s : String) : Option (List (Nat × Nat)) :=
+  if s = "-" then some [] else
+  allSome ((s.splitOn "+").map fun t =>
+    match t.splitOn "," with
+    | [e, h] => match parseNat? e, parseNat? h with
+      | some e, some h => some (e, h)
+      | _, _ => none
+    | _ => none)
+
+/-- `p:<sizes>` policy eval | `e:<sizes>` other eval | `s<src>:<sizes>` shared -/
+def parseNet? (s : String) : Option (Role × List (Nat × Nat)) :=
+  match s.splitOn ":" with
+  | [r, sz] =>
+    match parseSizes? sz with
+    | some sizes =>
+      if r = "p" then some (.eval true, sizes)
+      else if r = "e" then some (.eval false, sizes)
+      else if r.startsWith "s" then (parseNat? (r.drop 1).toString).map fun src => (.shared src, sizes)
+      else none
+    | none => none
+  | _ => none
+
+/-- `<n0+n1+…>@<lr><m|s>` -/
+def parseOpt? (s : String) : Option Opt :=
+  match s.splitOn "@" with
+  | [ns, rest] =>
+    let multi := rest.endsWith "m"
+    if !(rest.endsWith "m" || rest.endsWith "s") then none else
+    match parseNatList? "+" ns, parseNat? (rest.dropEnd 1).toString with
+    | some nets, some lr => some { nets := nets, lr := lr, multi := multi, groups := [] }
+    | _, _ => none
+  | _ => none
+
+def parseHook? : List String → Option Hook
+  | ["none"] => some .none
+  | ["share", src, ts] => match parseNat? src with
+    | some src => (parseNatList? "," ts).map (.shareEnc src)
+    | none => none
+  | ["detach", src, ts] => match parseNat? src with
+    | some src => (parseNatList? "," ts).map (.detachAll src)
+    | none => none
+  | _ => none
+
+def parseApplied (s : String) : List (Option String) :=
+  (s.splitOn ",").map fun t => if t = "_" then none else some t
+
+/-- `k=e,h+e,h` tokens → size table indexed by network -/
+def parseSizeTable? (n : Nat) (ws : List String) : Option (List (List (Nat × Nat))) :=
+  let entries := allSome (ws.map fun w =>
+    match w.splitOn "=" with
+    | [k, sz] => match parseNat? k, parseSizes? sz with
+      | some k, some sz => some (k, sz)
+      | _, _ => none
+    | _ => none)
+  entries.map fun es => (List.range n).map fun k => ((es.find? (fun e => e.1 == k)).map (·.2)).getD []
+
+def parseKind? (a : Agent) : List String → Option (Kind × Option (List (List (Nat × Nat))))
+  | ["none"] => some (.none, none)
+  | ["param"] => some (.param, none)
+  | ["act"] => some (.act, none)
+  | ["hp", name, "_", "_"] => some (.hp name none, none)
+  | ["hp", name, i, v] =>
+    match parseNat? i, parseRat? v with
+    | some i, some v => some (.hp name (some (i, v)), none)
+    | _, _ => none
+  | "arch" :: ap :: sizes =>
+    (parseSizeTable? a.nets.length sizes).map fun t => (.arch (parseApplied ap), some t)
+  | _ => none
+
+/-- sizes used when a network is re-created: those given for it (architecture mutation), else its own -/
+def mergeSizes (own : List (List (Nat × Nat))) (given : Option (List (List (Nat × Nat)))) (nets : List NetAttr) :
+    List (List (Nat × Nat)) :=
+  let ev := match given with
+    | none => own
+    | some g => own.mapIdx fun k o => match g[k]? with | some (x :: xs) => x :: xs | _ => o
+  -- shared networks are re-created with the shape of their evaluation network
+  nets.mapIdx fun k n =>
+    match n.role with
+    | .shared src => ev.getD src []
+    | .eval _ => ev.getD k []
+
+/-! printing -/
+
+def cellIndex (nets : List NetAttr) : List (Nat × (Nat × Nat × Nat)) :=
+  (nets.zipIdx.filter (fun p => p.1.role.isEval)).flatMap fun (n, k) =>
+    n.mods.zipIdx.flatMap fun (m, j) => m.params.zipIdx.map fun (c, i) => (c, (k, j, i))
+
+def showGroup (nets : List NetAttr) (idx : List (Nat × (Nat × Nat × Nat))) (g : Group) : String :=
+  let toks := g.cells.map fun c => (idx.find? (fun e => e.1 == c)).map (·.2)
+  let body :=
+    match toks with
+    | [] => "-"
+    | some (k, j, 0) :: _ =>
+      let full := (paramsOf nets k).getD j []
+      if g.cells == full then s!"{k}.{j}*{full.length}"
+      else ",".intercalate (toks.map fun t => match t with | some (k, j, i) => s!"{k}.{j}.{i}" | none => "x")
+    | _ => ",".intercalate (toks.map fun t => match t with | some (k, j, i) => s!"{k}.{j}.{i}" | none => "x")
+  body ++ "@" ++ showRat g.lr
+
+def showAgent (a : Agent) : String :=
+  let idx := cellIndex a.nets
+  let opts := a.opts.zipIdx.map fun (o, q) =>
+    s!"o{q}{if o.multi then "m" else "s"} lr={showRat (a.lrs.getD o.lr 0)} [" ++
+      " ".intercalate (o.groups.map (showGroup a.nets idx)) ++ "]"
+  let sh := (a.nets.zipIdx.filter (fun p => !p.1.role.isEval)).map fun (n, k) =>
+    s!"sh{k}:a{showBool (sharedArchOK a.nets n)}w{showBool (sharedWeightsOK a.nets n)}"
+  s!"idx={a.index} mut={a.label} | " ++ " | ".intercalate opts ++ " | " ++ " ".intercalate sh
+
+def showLma (a : Agent) : String :=
+  " ".intercalate ((a.nets.zipIdx.filter (fun p => p.1.role.isEval)).map fun (n, k) =>
+    s!"{k}:" ++ ",".intercalate (n.mods.map fun m => m.lastMut.getD "_"))
+
+/-- registered networks all of whose parameters a learn step writes -/
+def showMoved (a : Agent) : String :=
+  let w := learnWrites a
+  let ks := a.opts.flatMap (·.nets)
+  showNats ((List.range a.nets.length).filter fun k =>
+    ks.contains k && (paramsOf a.nets k).flatten.all (fun c => w.contains c) && !(paramsOf a.nets k).flatten.isEmpty)
+
+def newAgent (s : IOState) (index : Nat) (ex : Bool) (hook : Hook) (netSpecs : List (Role × List (Nat × Nat)))
+    (opts : List Opt) (lrs : List Rat) : IOState :=
+  let al := allocFresh s.next (netSpecs.map (·.2))
+  let nets0 : List NetAttr := netSpecs.mapIdx fun k sp =>
+    { role := sp.1, mods := (al.1.getD k []).mapIdx fun j fr =>
+        { arch := (0, (match sp.1 with | .shared src => src | .eval _ => k), j), wEnc := (s.stamp, k, j), wHead := (s.stamp, k, j),
+          enc := fr.1, head := fr.2, det := .none, lastMut := none } }
+  let a0 : Agent := { index := index, nets := nets0, opts := opts, lrs := lrs, hook := hook, actExempt := ex, label := "None" }
+  { s with pop := s.pop ++ [construct al.1 s.stamp a0], next := al.2, stamp := s.stamp + 1 }
 
 def step (s : IOState) : List String → IOState × String
+  | ["mode", m] =>
+    if m = "repaired" then ({ s with firstOnly := false }, "ok")
+    else if m = "unrepaired" then ({ s with firstOnly := true }, "ok") else (s, "bad-op")
+  | "new" :: index :: ex :: rest =>
+    match splitOnTok ";" rest with
+    | [hk, ns, os, ls] =>
+      match parseNat? index, parseHook? hk, allSome (ns.map parseNet?), allSome (os.map parseOpt?), parseRats? ls with
+      | some index, some hook, some nets, some opts, some lrs =>
+        if ex ≠ "0" ∧ ex ≠ "1" then (s, "bad-op")
+        else if opts.any (fun o => o.lr ≥ lrs.length || o.nets.any (· ≥ nets.length)) then (s, "reject")
+        else (newAgent s index (ex = "1") hook nets opts lrs, "ok")
+      | _, _, _, _, _ => (s, "bad-op")
+    | _ => (s, "bad-op")
+  | "select" :: ws =>
+    let specs := allSome (ws.map fun w =>
+      match w.splitOn ":" with
+      | [p, i] => match parseNat? p, parseNat? i with
+        | some p, some i => some (p, i)
+        | _, _ => none
+      | _ => none)
+    match specs with
+    | some ps =>
+      if ps.any (fun p => p.1 ≥ s.pop.length) then (s, "reject") else
+      let r := ps.foldl (fun (acc : List CloneSpec × Nat × Nat) p =>
+          let sizes := match s.pop[p.1]? with | some a => sizesOf a | none => []
+          let al := allocFresh acc.2.1 sizes
+          (acc.1 ++ [{ parent := p.1, index := p.2, fresh := al.1, stamp := acc.2.2 }], al.2, acc.2.2 + 1))
+        ([], s.next, s.stamp)
+      ({ s with pop := selectPop r.1 s.pop, next := r.2.1, stamp := r.2.2 }, "ok")
+    | none => (s, "bad-op")
+  | "mutate" :: ws =>
+    let parts := splitOnTok "|" ws
+    if parts.length ≠ s.pop.length then (s, "reject") else
+    let r := (parts.zip s.pop).foldl (fun (acc : Option (List Choice × Nat × Nat)) pa =>
+        match acc, parseKind? pa.2 pa.1 with
+        | some (cs, next, stamp), some (kind, given) =>
+          let al := allocFresh next (mergeSizes (sizesOf pa.2) given pa.2.nets)
+          some (cs ++ [{ kind := kind, fresh := al.1, stamp := stamp }], al.2, stamp + 2)
+        | _, _ => none) (some ([], s.next, s.stamp))
+    match r with
+    | some (cs, next, stamp) => ({ s with pop := mutatePop s.firstOnly cs s.pop, next := next, stamp := stamp }, "ok")
+    | none => (s, "bad-op")
+  | ["learn", i] =>
+    match parseNat? i with
+    | some i => if i < s.pop.length then ({ s with pop := learnPop i s.stamp s.pop, stamp := s.stamp + 1 }, "ok") else (s, "reject")
+    | none => (s, "bad-op")
+  | ["show", i] =>
+    match parseNat? i with
+    | some i => match s.pop[i]? with | some a => (s, showAgent a) | none => (s, "reject")
+    | none => (s, "bad-op")
+  | ["lma", i] =>
+    match parseNat? i with
+    | some i => match s.pop[i]? with | some a => (s, showLma a ++ " followed=" ++ showBool (archFollowed a.nets)) | none => (s, "reject")
+    | none => (s, "bad-op")
+  | ["moved", i] =>
+    match parseNat? i with
+    | some i => match s.pop[i]? with | some a => (s, showMoved a) | none => (s, "reject")
+    | none => (s, "bad-op")
+  | ["coherent", i] =>
+    match parseNat? i with
+    | some i => match s.pop[i]? with | some a => (s, showBool (coherent a)) | none => (s, "reject")
+    | none => (s, "bad-op")
+  | ["size"] => (s, toString s.pop.length)
   | _ => (s, "bad-op")
 
 end Coherence
